@@ -97,13 +97,24 @@ def scenario_histories(ctx):
     k = 0
     for base in ("", "/p"):
         for (x, y) in CONFUSABLE:
-            for op in ("removeall", "rename", "rename-over", "removeall-other"):
+            for op in ("removeall", "rename", "rename-over", "removeall-other", "rename-into"):
                 if "/" in x or "/" in y:
                     continue
                 X, Y, Z = base + "/" + x, base + "/" + y, base + "/z"
                 calls = [{"op": "initialize"}]
                 if base:
                     calls.append({"op": "mkdir", "name": base, "perm": 0o755})
+                if op == "rename-into":
+                    # the DESTINATION of a rename is the confusable name (it does not exist yet; its sibling has descendants), and a
+                    # rename whose destination was removed before (the index still holds tombstones below it)
+                    calls += [{"op": "mkdir", "name": Y, "perm": 0o755}, {"op": "createfile", "name": Y + "/c", "blob": 0}, {"op": "mkdirall", "name": Y + "/d/e", "perm": 0o755},
+                              {"op": "mkdir", "name": Z, "perm": 0o755}, {"op": "createfile", "name": Z + "/k", "blob": 1},
+                              {"op": "rename", "name": Z, "name2": X}, {"op": "chmod", "name": Y + "/c", "perm": 0o600}, {"op": "removeall", "name": X},
+                              {"op": "mkdir", "name": Z, "perm": 0o700}, {"op": "rename", "name": Z, "name2": X}, {"op": "remove", "name": Y + "/c"}]
+                    rs = rs_cycle[k % len(rs_cycle)]
+                    k += 1
+                    hs.append({"config": {"rs": rs, "cache": "file"}, "blobs": [{"seed": 1, "len": 700}, {"seed": 2, "len": 10}], "obs": FS_OBS, "calls": calls, "_scenario": "%s:%s/%s" % (op, x, y)})
+                    continue
                 calls += [{"op": "mkdir", "name": X, "perm": 0o755}, {"op": "mkdir", "name": Y, "perm": 0o755},
                           {"op": "createfile", "name": Y + "/c", "blob": 0}, {"op": "mkdirall", "name": Y + "/d/e", "perm": 0o755},
                           {"op": "createfile", "name": X + "/k", "blob": 1}, {"op": "mkdir", "name": X + "/m", "perm": 0o700}]
